@@ -313,6 +313,15 @@ func (c *ctx) phaseB(lo, hi int64, flagged []int64, out *zoneOut) {
 			}
 		}
 	}
+	// a client whose controller is configured with another zone: the civil minutes around that zone's
+	// offset changes, and the flagged days of the process zone below
+	if c.u2 != nil {
+		for _, t := range c.configuredZoneTimes() {
+			c.checkStatus("GetStatus@configured-zone", t[0], t[1], t[2], t[3], t[4], t[5])
+			c.checkStatus("Listen@configured-zone", t[0], t[1], t[2], t[3], t[4], t[5])
+			c.cnt.StatusCases += 2
+		}
+	}
 	for _, n := range sortedSet(set) {
 		y, m, d := fromOrdinal(n)
 		day := mkDay(y, m, d)
@@ -335,6 +344,11 @@ func (c *ctx) phaseB(lo, hi int64, flagged []int64, out *zoneOut) {
 				c.checkStatus("GetStatus", y, m, d, t[0], t[1], t[2])
 				c.checkStatus("Listen", y, m, d, t[0], t[1], t[2])
 				c.cnt.StatusCases += 2
+				if near[n] && c.u2 != nil {
+					c.checkStatus("GetStatus@configured-zone", y, m, d, t[0], t[1], t[2])
+					c.checkStatus("Listen@configured-zone", y, m, d, t[0], t[1], t[2])
+					c.cnt.StatusCases += 2
+				}
 			}
 		}
 		if near[n] && !c.z.midnight(y, m, d) && len(out.Samples) < 2 {
@@ -721,7 +735,7 @@ func main() {
 	hy, hm, hd := fromOrdinal(hi)
 	r.Count(total.Evals)
 	r.Distinct(distinct)
-	r.Rule(fmt.Sprintf("zones: %d (one child process each, time.Local = the loaded location); per zone: (a) ToDate on every day %s..%s; (b) every day whose 00:00 is missing or whose offset changes within the day (found by a time.Date scan) +-2 and the 1st/15th/last of every month: ToDate, ParseDate, Date wire decode (direct, codec value field, codec pointer field), Date JSON decode, and for years %d..%d the two-digit SystemDate decode and the SystemDate+SystemTime recombination through GetStatus and Listen at %d times of day (with a four-digit event timestamp alongside); (c) DateTime wire decode around every flagged day f: up to year %d every whole minute of f-1, f, f+1 plus second 59 of every minute of f; up to year %d every whole minute of f; later every half hour of f; and every hour of every day of 2024. distinct_nontrivial = judged (function, civil input) cases summed over zones with pairwise different midnight-offset histories over the range (aliases counted once); evaluations counts every library call incl. exempt ones",
+	r.Rule(fmt.Sprintf("zones: %d (one child process each, time.Local = the loaded location); per zone: (a) ToDate on every day %s..%s; (b) every day whose 00:00 is missing or whose offset changes within the day (found by a time.Date scan) +-2 and the 1st/15th/last of every month: ToDate, ParseDate, Date wire decode (direct, codec value field, codec pointer field), Date JSON decode, and for years %d..%d the two-digit SystemDate decode and the SystemDate+SystemTime recombination through GetStatus and Listen at %d times of day (with a four-digit event timestamp alongside), also through a client whose controller is configured with a zone of its own (America/Santiago, or Europe/London when that is the process zone) incl. every 10th civil minute within 2.5 h of that zone's offset changes 2023..2025; (c) DateTime wire decode around every flagged day f: up to year %d every whole minute of f-1, f, f+1 plus second 59 of every minute of f; up to year %d every whole minute of f; later every half hour of f; and every hour of every day of 2024. distinct_nontrivial = judged (function, civil input) cases summed over zones with pairwise different midnight-offset histories over the range (aliases counted once); evaluations counts every library call incl. exempt ones",
 		len(zones), refDateText(ly, lm, ld), refDateText(hy, hm, hd), sysYearLo, sysYearHi, len(statusTimes), minuteYearFull, minuteYearMax))
 	r.Set("zones", len(zones))
 	r.Set("zones_distinct_histories", len(seen))
